@@ -421,8 +421,57 @@ def on_beakerargs(p, r, exc, acc):
 
 
 
+# ------------------------------------------------------------------ a cached def is called like the uncached one
+CSIGS = ["a", "a, b=2", "a, b=2, *rest", "a, *rest, k=3", "a, b=2, *rest, k=3, **kw", "a, b=2, **kw"]
+CCALLS = ["1", "1, 5", "1, 5, 6, 7", "1, b=5", "1, k=9", "1, 5, 6, k=9, z=0"]
+
+
+def cargs_run(TPm, sig, call, cached):
+    BK.reset()
+    names = [x.strip().lstrip("*").split("=")[0] for x in sig.split(",")]
+    show = ", ".join("%s" % n for n in names)
+    src = '<%def name="d(' + sig + ')" cached="' + str(cached) + '">${repr((' + show + ',))}</%def>${d(' + call + ')}'
+    try:
+        return TPm.Template(src, uri="c17args.html", cache_impl="refdict").render()
+    except Exception as e:
+        return "raised %s" % type(e).__name__
+
+
+def h_cargs(p):
+    sig = CSIGS[p.choose(len(CSIGS), "signature")]
+    call = CCALLS[p.choose(len(CCALLS), "call")]
+    return dict(sig=sig, call=call, got=cargs_run(TP, sig, call, True), ref=cargs_run(TP, sig, call, False))
+
+
+def on_cargs(p, r, exc, acc):
+    if exc is not None:
+        acc.candidate(kind="harness-exception", input=None, detail="%s: %s" % (type(exc).__name__, str(exc)[:200]))
+        return
+    acc.tags["ran"] += 1
+    acc.vcs += 1
+    if r["got"] != r["ref"]:
+        acc.candidate(kind="cached-def-arguments", input=dict(cached_signature=r["sig"], call=r["call"]), detail="cached: %r, uncached: %r" % (r["got"], r["ref"]))
+    acc.sample(dict(signature=r["sig"], call=r["call"], output=r["got"]))
+
+
+
 def make_replay(c):
     i = c["input"] or {}
+    if "cached_signature" in i:
+        body = """
+sys.path.insert(0, "/verif")
+CASE = __CASE__
+import mako.template as TP, mako.cache as CA
+from props import C17, c17backend as BK
+BK.install(CA.CacheImpl)
+CA.register_plugin("refdict", "props.c17backend", "RefDict")
+got, ref = C17.cargs_run(TP, CASE["cached_signature"], CASE["call"], True), C17.cargs_run(TP, CASE["cached_signature"], CASE["call"], False)
+print("def d(%s) called as d(%s): cached %s, uncached %s" % (CASE["cached_signature"], CASE["call"], got, ref))
+bad = None if got == ref else "a cached def does not receive its arguments as the uncached def does"
+print("VIOLATED: " + bad if bad else "HOLDS")
+sys.exit(1 if bad else 0)
+""".replace("__CASE__", repr(i))
+        return (c["kind"], body, repr(sorted(i.items(), key=str)))
     if "beaker" in i:
         body = """
 sys.path.insert(0, "/verif")
@@ -542,6 +591,8 @@ def run(check, tier):
                      dict(ops=n, operations=INH_OPS), ("ran",)))
     jobs.append(("C17-beaker", h_beakerargs, on_beakerargs, "the Beaker plugin with the real Beaker: section configured plain / timeout / region, cache directory "
                  "given at no / Template / <%page> / section level or memory, module directory on / off; a template replaced under its URI", dict(), ("ran",)))
+    jobs.append(("C17-args", h_cargs, on_cargs, "a cached def with positional / defaulted / *args / keyword-only / ** parameters called in several ways, against the "
+                 "same def uncached", dict(signatures=CSIGS, calls=CCALLS), ("ran",)))
     jobs.append(("C17-key", h_key, on_key, "cache_key built from several pieces x two solver-chosen value pairs", dict(spellings=KEY_SPELLINGS, values=KEY_VALUES), ("ran",)))
     jobs.append(("C17-ctx", h_ctx, on_ctx, "pass_context backend over 2-3 renders with solver-chosen contexts", dict(), ("ran",)))
     jobs.append(("C17-two", h_two, on_two, "two templates whose URIs differ in one solver-chosen character share a backend", dict(), ("ran",)))
